@@ -6,6 +6,13 @@ M2  Ring_Dump: every Add/Clear edge of the reachable graph is executed on the re
     (path cover), with sample(B) for every B <= len interleaved; all four observation kinds
 M3  every recorded execution (small scope and hypothesis-style random long runs with capacities up
     to 64) is validated by TLC against Ring_Trace / MABuffer_Trace with all invariants on.
+
+Dimensions varied along the cases (see vfw/drive/ring.py): six observation kinds (the four of the quantifier + rank-0
+observations / dict members), action shapes (w,), (w,1), (w,2), width-1 additions built batched or as train_off_policy
+builds them for one environment, key order of the added TensorDict, the dtype option, three ways of drawing a batch
+(buffer.sample, Sampler(memory), Sampler(dataset, dataloader)), return_idx, a learner that overwrites its batch in place;
+multi-agent: heterogeneous agents (kinds / action widths differ per agent), field names, agent names, device option,
+Python-scalar rewards / bool dones, sampling through the Sampler, the extra positional argument of sample().
 """
 from __future__ import annotations
 
@@ -13,7 +20,6 @@ import random
 
 from .. import tlc
 from ..core import Vacuous
-from ..codec import OBS_KINDS
 from ..relation import Relation
 
 RING_TRACE_CFG = """SPECIFICATION TSpec
@@ -85,7 +91,13 @@ def run(ctx):
     ctx.extra["ring_relation_edges"] = len(rel.edges)
     ctx.extra["ring_cover_paths"] = len(paths)
     traces = []
-    kinds = OBS_KINDS
+    kinds = ring.ALL_KINDS
+
+    def single_opts(i):
+        # action shape, dtype option: cycle independently of kind (period 6) and sampler mode (period 3)
+        return {"act_dim": (i // 3 + i // 7) % 3, "dtype": "float64" if i % 5 == 2 else "float32",
+                "obs_dtype": (None, None, "int64", None, "float64")[(i // 2) % 5]}
+
     for pi, p in enumerate(paths):
         N = rel.edges[p[0]]["from"]["N"]
         ops = []
@@ -100,18 +112,20 @@ def run(ctx):
             # interleave samples of every batch size up to the current length
             for B in range(1, size + 1):
                 ops.append(("sample", B))
-        ks = kinds if (not quick or pi % 4 == 0) else (kinds[pi % 4],)
-        for kind in ks:
-            t = ring.run_single(N, kind, ops, use_sampler=(pi % 2 == 0), seed=ctx.seed + pi)
+        ks = kinds if (not quick or pi % 6 == 0) else (kinds[pi % 6],)
+        for ki, kind in enumerate(ks):
+            kind += ring.HALF if (pi // 2 + ki) % 2 else ""          # half-integer encoded values every other pair of paths
+            so = single_opts(pi + ki)
+            t = ring.run_single(N, kind, ops, use_sampler=(pi + ki) % 3, seed=ctx.seed + pi, opts=so)
             traces.append(t)
-            ctx.case(("ring-path", N, kind, tuple(ops)))
+            ctx.case(("ring-path", N, kind, (pi + ki) % 3, so["act_dim"], so["dtype"], so["obs_dtype"], tuple(ops)))
     ctx.sample({"ring_trace": traces[len(traces) // 2]})
 
     # ---- M3: random long runs, larger capacities, widths up to capacity, wrap exactly at / across end
     n_long = 40 if quick else 400
     for j in range(n_long):
         N = rng.choice([1, 2, 3, 5, 7, 8, 13, 16, 32, 64])
-        kind = kinds[j % 4]
+        kind = kinds[j % 6] + (ring.HALF if (j // 3) % 2 else "")
         ops = []
         size = 0
         cursor = 0
@@ -130,18 +144,27 @@ def run(ctx):
                 ops.append(("clear",))
                 size = 0
                 cursor = 0
-        traces.append(ring.run_single(N, kind, ops, use_sampler=bool(j % 2), seed=ctx.seed + j))
-        ctx.case(("ring-long", N, kind, tuple(ops)))
+        so = single_opts(j + 1)
+        traces.append(ring.run_single(N, kind, ops, use_sampler=(j // 2) % 3, seed=ctx.seed + j, opts=so))
+        ctx.case(("ring-long", N, kind, (j // 2) % 3, so["act_dim"], so["dtype"], so["obs_dtype"], tuple(ops)))
     ctx.validate("Ring_Trace", RING_TRACE_CFG, traces, sig=_sig("ring"), what=_what("ReplayBuffer"), chunk=300)
 
     # ---- multi-agent buffer: exhaustive small op sequences + random long ones
     ma_traces = []
     import itertools
     small_ops = [("save1",), ("savev", 1), ("savev", 2), ("savev", 3)]
+    # heterogeneous agents ("mixed": observation kind and action width differ per agent) every other case
+    ma_kinds = ("mixed",) + ring.ALL_KINDS[:3] + ("mixed2",) + ring.ALL_KINDS[3:]
+
+    def ma_opts(i):
+        return {"names": (i // 2) % 3, "agents": (i // 3) % 3, "device": (None, "cpu")[(i // 4) % 2], "sampler": (i // 2) % 2 == 1,
+                "py_scalars": i % 3 == 1, "bool_done": i % 5 == 3}
+
     depth = 3 if quick else 4
     seqs = list(itertools.product(small_ops, repeat=depth))
     for si, seq in enumerate(seqs):
-        for N in ((1, 2, 3, 4) if not quick else (1 + si % 4,)):
+        # (quick) the capacity / kind cycle through all values against every position of the sequence, not only the last
+        for N in ((1, 2, 3, 4) if not quick else (1 + (si + si // 4 + si // 16) % 4,)):
             ops = []
             size = 0
             for op in seq:
@@ -149,10 +172,11 @@ def run(ctx):
                 size = min(N, size + (1 if op[0] == "save1" else op[1]))
                 for B in range(1, size + 1):
                     ops.append(("sample", B))
-            kind = kinds[si % 4]
+            kind = ma_kinds[(si + si // 8) % len(ma_kinds)] + (ring.HALF if (si // 5) % 2 else "")
             nag = 1 + si % 3
-            ma_traces.append(ring.run_ma(N, kind, nag, ops, seed=ctx.seed + si, via_dispatch=bool(si % 2)))
-            ctx.case(("ma-small", N, kind, nag, tuple(ops)))
+            mo = ma_opts(si)
+            ma_traces.append(ring.run_ma(N, kind, nag, ops, seed=ctx.seed + si, via_dispatch=bool(si % 2), opts=mo))
+            ctx.case(("ma-small", N, kind, nag, tuple(sorted(mo.items(), key=str)), tuple(ops)))
     for j in range(30 if quick else 300):
         N = rng.choice([1, 2, 3, 5, 8, 16, 32])
         ops = []
@@ -168,13 +192,18 @@ def run(ctx):
                 size = min(N, size + w)
             else:
                 ops.append(("sample", rng.choice([1, size, rng.randint(1, size)])))
-        ma_traces.append(ring.run_ma(N, kinds[j % 4], 1 + j % 3, ops, seed=ctx.seed + j, via_dispatch=bool(j % 2)))
-        ctx.case(("ma-long", N, kinds[j % 4], 1 + j % 3, tuple(ops)))
+        mo = ma_opts(j + 1)
+        mk = ma_kinds[(j + 3) % len(ma_kinds)] + (ring.HALF if (j // 3) % 2 else "")
+        ma_traces.append(ring.run_ma(N, mk, 1 + j % 3, ops, seed=ctx.seed + j, via_dispatch=bool(j % 2), opts=mo))
+        ctx.case(("ma-long", N, mk, 1 + j % 3, tuple(sorted(mo.items(), key=str)), tuple(ops)))
     ctx.sample({"ma_trace": ma_traces[0]})
     ctx.validate("MABuffer_Trace", MA_TRACE_CFG, ma_traces, sig=_sig("mabuf"), what=_what("MultiAgentReplayBuffer"), chunk=300)
 
-    ctx.assume("ids are encoded in float32 values (exact below 2^24); the projection decodes storage[:len] / memory")
+    ctx.assume("ids are encoded in float32 values (id*64 + field code, half of the cases + 0.5; exact below 2^23); the projection "
+               "decodes storage[:len] / memory")
     ctx.assume("widths larger than the capacity are outside the property's quantifier and are not generated")
+    ctx.assume("the caller does not overwrite the arrays it has passed to add() / save_to_memory() (the multi-agent buffer keeps "
+               "references to them); numpy-scalar observations (stored as NonTensorData) are not generated")
     rule = ("case = (buffer, capacity, observation kind, operation sequence); small scope: path cover of every Add/Clear "
             "edge of TLC's reachable graph for capacities 1..4 with sample(B) for every B<=len after each step; "
             "large scope: seeded random sequences biased to wrap exactly at/across the end; distinct = distinct tuples")
